@@ -13,6 +13,18 @@ struct PeekTSD : NiTriShapeData {
 	static const std::vector<Triangle>& tris(const NiTriShapeData& d) { return d.*(&PeekTSD::triangles); }
 };
 
+// naive definition of strip expansion: consecutive triples, alternating winding, degenerate triples dropped
+std::vector<Triangle> expandStrips(const std::vector<std::vector<uint16_t>>& strips) {
+	std::vector<Triangle> out;
+	for (auto& st : strips)
+		for (size_t i = 0; i + 2 < st.size(); i++) {
+			uint16_t a = st[i], b = st[i + 1], c = st[i + 2];
+			if (a == b || b == c || a == c) continue;
+			out.push_back((i % 2 == 0) ? Triangle(a, b, c) : Triangle(a, c, b));
+		}
+	return out;
+}
+
 std::string triStr(const Triangle& t) { return "(" + std::to_string(t.p1) + "," + std::to_string(t.p2) + "," + std::to_string(t.p3) + ")"; }
 
 static bool feq(float a, float b, float tol) {
@@ -82,6 +94,7 @@ ShapeSnap snapShape(NifFile& nif, NiShape* shape) {
 	if (shape->HasType<NiTriStrips>()) {
 		s.isStrips = true;
 		if (auto d = shape->DataRef() ? hdr.GetBlock<NiTriStripsData>(shape->DataRef()) : nullptr) s.strips = d->stripsInfo.points;
+		s.stripTris = expandStrips(s.strips);
 	}
 	bool hasSkinRef = shape->SkinInstanceRef() && !shape->SkinInstanceRef()->IsEmpty();
 	s.skinned = shape->IsSkinned() && hasSkinRef;
